@@ -15,6 +15,7 @@ CONSTANTS
   MaxAtt = 1
   Crashes = FALSE
   StartBy = 0
+  HealOdds = 3
 VIEW View
 INVARIANTS TypeOK InvExclusion InvHolderHasFile InvNotStale InvFresh
 CHECK_DEADLOCK FALSE
